@@ -903,7 +903,18 @@ pub fn run_batch<G: CurveTag>(
             run_phase1(&mut v, &m.prog.ops, &ctx).expect("verifier-side construction never fails");
             instances.push((v, m.proof));
         }
-        batch_verify(&mut rng, instances, &pc, &gens)
+        // the instances reach `batch_verify` through iterators of different kinds (exact and
+        // inexact size hints), chosen by the seed
+        match seed % 5 {
+            1 => batch_verify(&mut rng, instances.into_iter().filter(|_| true), &pc, &gens),
+            2 => batch_verify(&mut rng, instances.into_iter().flat_map(|x| Some(x)), &pc, &gens),
+            3 => {
+                let mut it = instances.into_iter();
+                batch_verify(&mut rng, std::iter::from_fn(move || it.next()), &pc, &gens)
+            }
+            4 => batch_verify(&mut rng, instances.into_iter().take_while(|_| true), &pc, &gens),
+            _ => batch_verify(&mut rng, instances, &pc, &gens),
+        }
     });
     match res {
         Ok(r) => (Some(r), None),
